@@ -148,7 +148,9 @@ def main(args):
             rp = json.load(f)
         combos = [(rp["case"]["spec_case"], rp["case"]["ws"])]
     else:
-        cases = [c for c in wcommon.gen(run, 10 if not thorough else 150, maxtx=2, extra=True) if len(c["files"]) >= 2]
+        cases = [c for c in wcommon.gen(run, 24 if not thorough else 300, maxtx=2, extra=True) if len(c["files"]) >= 2][:(10 if not thorough else 150)]
+        if not cases:
+            vf.die_tooling("WorkspaceFiles.tla produced no workspace with two or more files")
         combos = [(c, ws) for c in cases for ws in (False, True)]
     hcs = [build(c, ws) for c, ws in combos]
     per_case = run_all(run, hcs)
